@@ -7,7 +7,8 @@
   in particular no span is closed twice. The theorem holds for every event sequence (well-formed
   or not) and every history with the local map kept, lost (same or new host) or discarded.
 -/
-import TT.Lemmas.RecvSim
+import TT.Lemmas.RecvDefs
+import TT.Lemmas.RecvIds
 
 namespace TT
 
@@ -52,15 +53,811 @@ def closedIn (log : List HostCall) : List Nat := log.reverse.flatMap HostCall.cl
 def HostOK (host : Host) : Prop :=
   WellUsed host.log ∧ ∀ h ∈ issuedIn host.log, h < host.next
 
+/-! ### Helper lemmas (proof infrastructure for the C08 theorems below) -/
+
+section Helpers
+
+theorem wellUsedFrom_append (i c : List Nat) (xs ys : List HostCall) :
+    wellUsedFrom i c (xs ++ ys) =
+      (wellUsedFrom i c xs &&
+        wellUsedFrom (i ++ xs.flatMap HostCall.issues) (c ++ xs.flatMap HostCall.closes) ys) := by
+  induction xs generalizing i c with
+  | nil => simp [wellUsedFrom]
+  | cons x xs ih => simp [wellUsedFrom, ih, List.append_assoc, Bool.and_assoc]
+
+theorem issuedIn_cons (c : HostCall) (log : List HostCall) :
+    issuedIn (c :: log) = issuedIn log ++ c.issues := by
+  simp [issuedIn]
+
+theorem closedIn_cons (c : HostCall) (log : List HostCall) :
+    closedIn (c :: log) = closedIn log ++ c.closes := by
+  simp [closedIn]
+
+theorem wellUsed_cons (c : HostCall) (log : List HostCall) :
+    WellUsed (c :: log) ↔
+      WellUsed log ∧ ∀ h ∈ c.uses, h ∈ issuedIn log ∧ h ∉ closedIn log := by
+  unfold WellUsed
+  rw [List.reverse_cons, wellUsedFrom_append]
+  simp [wellUsedFrom, issuedIn, closedIn]
+
+/-- `h` was issued by the host and is still open. -/
+def Live (host : Host) (h : Nat) : Prop := h ∈ issuedIn host.log ∧ h ∉ closedIn host.log
+
+structure HostInv (host : Host) : Prop where
+  wu : WellUsed host.log
+  lt : ∀ h ∈ issuedIn host.log, h < host.next
+
+/-- `b` issued and closed the same ids as `a`. -/
+structure Same (a b : Host) : Prop where
+  iss : issuedIn b.log = issuedIn a.log
+  cls : closedIn b.log = closedIn a.log
+  nxt : b.next = a.next
+
+/-- `b` issued exactly one more id, `h`, than `a`, and closed the same ones. -/
+structure Fresh (a b : Host) (h : Nat) : Prop where
+  iss : issuedIn b.log = issuedIn a.log ++ [h]
+  cls : closedIn b.log = closedIn a.log
+  new : h ∉ issuedIn a.log
+
+structure LocInv (host : Host) (loc : AMap Nat Nat) : Prop where
+  live : ∀ g h, loc.get g = some h → Live host h
+  inj : ∀ g₁ g₂ h, loc.get g₁ = some h → loc.get g₂ = some h → g₁ = g₂
+
+theorem Same.refl (a : Host) : Same a a := ⟨rfl, rfl, rfl⟩
+
+theorem Same.trans {a b c : Host} (h₁ : Same a b) (h₂ : Same b c) : Same a c :=
+  ⟨h₂.iss.trans h₁.iss, h₂.cls.trans h₁.cls, h₂.nxt.trans h₁.nxt⟩
+
+theorem Same.live {a b : Host} (hs : Same a b) {h : Nat} (hl : Live a h) : Live b h := by
+  unfold Live at *
+  rw [hs.iss, hs.cls]
+  exact hl
+
+theorem Same.locInv {a b : Host} (hs : Same a b) {loc : AMap Nat Nat} (hl : LocInv a loc) :
+    LocInv b loc :=
+  ⟨fun g h e => hs.live (hl.live g h e), hl.inj⟩
+
+theorem Fresh.same {a b c : Host} {h : Nat} (hf : Fresh a b h) (hs : Same b c) : Fresh a c h :=
+  ⟨hs.iss.trans hf.iss, hs.cls.trans hf.cls, hf.new⟩
+
+theorem emit_log (a : Host) (c : HostCall) : (a.emit c).log = c :: a.log := rfl
+theorem emit_next (a : Host) (c : HostCall) : (a.emit c).next = a.next := rfl
+
+theorem closes_sub_uses (c : HostCall) : ∀ h ∈ c.closes, h ∈ c.uses := by
+  cases c <;> simp [HostCall.closes, HostCall.uses]
+
+theorem closed_sub_issued : ∀ (log : List HostCall), WellUsed log →
+    ∀ h ∈ closedIn log, h ∈ issuedIn log
+  | [], _ => by simp [closedIn]
+  | c :: log, hw => by
+    intro h hh
+    rw [closedIn_cons] at hh
+    rw [issuedIn_cons]
+    obtain ⟨hw', hu⟩ := (wellUsed_cons c log).1 hw
+    rcases List.mem_append.1 hh with h1 | h1
+    · exact List.mem_append_left _ (closed_sub_issued log hw' h h1)
+    · exact List.mem_append_left _ (hu h (closes_sub_uses c h h1)).1
+
+theorem closed_nodup : ∀ (log : List HostCall), WellUsed log → (closedIn log).Nodup
+  | [], _ => by simp [closedIn]
+  | c :: log, hw => by
+    obtain ⟨hw', hu⟩ := (wellUsed_cons c log).1 hw
+    have ih := closed_nodup log hw'
+    rw [closedIn_cons]
+    cases c <;> simp [HostCall.closes] <;> try exact ih
+    rename_i h
+    rw [List.nodup_append]
+    refine ⟨ih, by simp, ?_⟩
+    intro x hx y hy
+    simp at hy
+    subst hy
+    intro e
+    subst e
+    exact (hu x (by simp [HostCall.uses])).2 hx
+
+theorem Fresh.live_new {a b : Host} {h : Nat} (hf : Fresh a b h) (ha : HostInv a) : Live b h := by
+  refine ⟨by rw [hf.iss]; simp, ?_⟩
+  rw [hf.cls]
+  intro hc
+  exact hf.new (closed_sub_issued _ ha.wu h hc)
+
+theorem Fresh.live_old {a b : Host} {h x : Nat} (hf : Fresh a b h) (hx : Live a x) : Live b x := by
+  refine ⟨by rw [hf.iss]; exact List.mem_append_left _ hx.1, ?_⟩
+  rw [hf.cls]
+  exact hx.2
+
+theorem emit_quiet {a : Host} (hi : HostInv a) (c : HostCall) (h1 : c.issues = [])
+    (h2 : c.closes = []) (hu : ∀ h ∈ c.uses, Live a h) :
+    HostInv (a.emit c) ∧ Same a (a.emit c) := by
+  have hs : Same a (a.emit c) :=
+    ⟨by rw [emit_log, issuedIn_cons, h1]; simp, by rw [emit_log, closedIn_cons, h2]; simp, rfl⟩
+  refine ⟨⟨?_, ?_⟩, hs⟩
+  · rw [emit_log, wellUsed_cons]
+    exact ⟨hi.wu, hu⟩
+  · rw [hs.iss, hs.nxt]
+    exact hi.lt
+
+theorem emitN_quiet (c : HostCall) (h1 : c.issues = []) (h2 : c.closes = []) :
+    ∀ (n : Nat) (a : Host), HostInv a → (∀ h ∈ c.uses, Live a h) →
+      HostInv (emitN a c n) ∧ Same a (emitN a c n)
+  | 0, a, hi, _ => ⟨hi, Same.refl a⟩
+  | n + 1, a, hi, hu => by
+    obtain ⟨hi', hs⟩ := emit_quiet hi c h1 h2 hu
+    obtain ⟨hi'', hs'⟩ := emitN_quiet c h1 h2 n (a.emit c) hi' (fun h hh => hs.live (hu h hh))
+    exact ⟨hi'', hs.trans hs'⟩
+
+theorem recordChunks_quiet (h : Nat) : ∀ (cs : List RawVals) (a b : Host), HostInv a → Live a h →
+    recordChunks a h cs = some b → HostInv b ∧ Same a b
+  | [], a, b, hi, _, e => by
+    simp [recordChunks] at e
+    subst e
+    exact ⟨hi, Same.refl _⟩
+  | c :: cs, a, b, hi, hl, e => by
+    simp only [recordChunks] at e
+    split at e
+    · cases e
+    · rename_i v _
+      obtain ⟨hi', hs⟩ := emit_quiet hi (.record h v) rfl rfl
+        (by intro x hx; simp [HostCall.uses] at hx; subst hx; exact hl)
+      obtain ⟨hi'', hs'⟩ := recordChunks_quiet h cs _ b hi' (hs.live hl) e
+      exact ⟨hi'', hs.trans hs'⟩
+
+theorem newSpan_spec {a : Host} (hi : HostInv a) (m : Nat) (p : HParent) (v : RawVals)
+    (hp : ∀ x ∈ p.uses, Live a x) :
+    HostInv (a.newSpan m p v).1 ∧ Fresh a (a.newSpan m p v).1 (a.newSpan m p v).2 := by
+  have hlog : (a.newSpan m p v).1.log = .newSpan a.next m p v :: a.log := rfl
+  have hnext : (a.newSpan m p v).1.next = a.next + 1 := rfl
+  have h2 : (a.newSpan m p v).2 = a.next := rfl
+  have hf : Fresh a (a.newSpan m p v).1 a.next :=
+    ⟨by rw [hlog, issuedIn_cons]; rfl, by rw [hlog, closedIn_cons]; simp [HostCall.closes],
+      fun hh => Nat.lt_irrefl _ (hi.lt _ hh)⟩
+  refine ⟨⟨?_, ?_⟩, by rw [h2]; exact hf⟩
+  · rw [hlog, wellUsed_cons]
+    exact ⟨hi.wu, hp⟩
+  · rw [hf.iss, hnext]
+    intro h hh
+    simp at hh
+    rcases hh with hh | rfl
+    · exact Nat.lt_succ_of_lt (hi.lt h hh)
+    · exact Nat.lt_succ_self _
+
+/-- `b` closed exactly one more id, `h`, than `a`. -/
+structure Closed (a b : Host) (h : Nat) : Prop where
+  iss : issuedIn b.log = issuedIn a.log
+  cls : closedIn b.log = closedIn a.log ++ [h]
+  nxt : b.next = a.next
+
+theorem close_spec {a : Host} (hi : HostInv a) {h : Nat} (hl : Live a h) :
+    HostInv (a.emit (.tryClose h)) ∧ Closed a (a.emit (.tryClose h)) h := by
+  have hc : Closed a (a.emit (.tryClose h)) h :=
+    ⟨by rw [emit_log, issuedIn_cons]; simp [HostCall.issues],
+     by rw [emit_log, closedIn_cons]; rfl, rfl⟩
+  refine ⟨⟨?_, ?_⟩, hc⟩
+  · rw [emit_log, wellUsed_cons]
+    refine ⟨hi.wu, ?_⟩
+    intro x hx
+    simp [HostCall.uses] at hx
+    subst hx
+    exact hl
+  · rw [hc.iss, hc.nxt]
+    exact hi.lt
+
+theorem LocInv.nil (a : Host) : LocInv a [] :=
+  ⟨fun g h e => by simp [AMap.get] at e, fun g₁ g₂ h e => by simp [AMap.get] at e⟩
+
+theorem LocInv.insert {a b : Host} {loc : AMap Nat Nat} {h : Nat} (hl : LocInv a loc)
+    (ha : HostInv a) (hf : Fresh a b h) (g : Nat) : LocInv b (loc.insert g h) := by
+  constructor
+  · intro g' h' e
+    rw [AMap.get_insert] at e
+    split at e
+    · cases e
+      exact hf.live_new ha
+    · exact hf.live_old (hl.live g' h' e)
+  · intro g₁ g₂ h' e₁ e₂
+    rw [AMap.get_insert] at e₁ e₂
+    split at e₁ <;> split at e₂
+    · subst_vars; rfl
+    · cases e₁
+      exact absurd (hl.live _ _ e₂).1 hf.new
+    · cases e₂
+      exact absurd (hl.live _ _ e₁).1 hf.new
+    · exact hl.inj _ _ _ e₁ e₂
+
+theorem LocInv.erase {a b : Host} {loc : AMap Nat Nat} {g h : Nat} (hl : LocInv a loc)
+    (hc : Closed a b h) (hg : loc.get g = some h) : LocInv b (loc.erase g) := by
+  constructor
+  · intro g' h' e
+    rw [AMap.get_erase] at e
+    split at e
+    · cases e
+    · rename_i hne
+      have hl' := hl.live g' h' e
+      refine ⟨by rw [hc.iss]; exact hl'.1, ?_⟩
+      rw [hc.cls]
+      intro hm
+      rcases List.mem_append.1 hm with hm | hm
+      · exact hl'.2 hm
+      · simp at hm
+        subst hm
+        exact hne (hl.inj _ _ _ hg e)
+  · intro g₁ g₂ h' e₁ e₂
+    rw [AMap.get_erase] at e₁ e₂
+    split at e₁
+    · cases e₁
+    · split at e₂
+      · cases e₂
+      · exact hl.inj _ _ _ e₁ e₂
+
+/-! #### `finalize` -/
+
+theorem finalize_split (e : AMap Nat Nat) (u : List Nat) (loc : AMap Nat Nat) (a : Host) :
+    finalize e u loc a = finalize [] u loc (finalize e [] loc a) := rfl
+
+theorem finalize_exit_cons (kv : Nat × Nat) (e : AMap Nat Nat) (loc : AMap Nat Nat) (a : Host) :
+    finalize (kv :: e) [] loc a =
+      finalize e [] loc (match loc.get kv.1 with
+        | some h => emitN a (.exit h) kv.2
+        | none => a) := rfl
+
+theorem finalize_close_cons (id : Nat) (u : List Nat) (loc : AMap Nat Nat) (a : Host) :
+    finalize [] (id :: u) loc a =
+      finalize [] u loc (match loc.get id with
+        | some h => a.emit (.tryClose h)
+        | none => a) := rfl
+
+theorem finalize_nil (loc : AMap Nat Nat) (a : Host) : finalize [] [] loc a = a := rfl
+
+theorem finalize_exits (loc : AMap Nat Nat) : ∀ (e : AMap Nat Nat) (a : Host), HostInv a →
+    LocInv a loc → HostInv (finalize e [] loc a) ∧ Same a (finalize e [] loc a)
+  | [], a, hi, _ => ⟨hi, Same.refl a⟩
+  | kv :: e, a, hi, hl => by
+    rw [finalize_exit_cons]
+    split
+    · rename_i h hg
+      obtain ⟨hi', hs⟩ := emitN_quiet (.exit h) rfl rfl kv.2 a hi
+        (by intro x hx; simp [HostCall.uses] at hx; subst hx; exact hl.live _ _ hg)
+      obtain ⟨hi'', hs'⟩ := finalize_exits loc e _ hi' (hs.locInv hl)
+      exact ⟨hi'', hs.trans hs'⟩
+    · exact finalize_exits loc e a hi hl
+
+theorem finalize_closes (loc : AMap Nat Nat)
+    (hinj : ∀ g₁ g₂ h, loc.get g₁ = some h → loc.get g₂ = some h → g₁ = g₂) :
+    ∀ (u : List Nat) (a : Host), HostInv a → u.Nodup →
+      (∀ id ∈ u, ∀ h, loc.get id = some h → Live a h) → HostInv (finalize [] u loc a)
+  | [], a, hi, _, _ => hi
+  | id :: u, a, hi, hn, hl => by
+    rw [finalize_close_cons]
+    have hn' := List.nodup_cons.1 hn
+    split
+    · rename_i h hg
+      obtain ⟨hi', hc⟩ := close_spec hi (hl id (by simp) h hg)
+      refine finalize_closes loc hinj u _ hi' hn'.2 ?_
+      intro id' hid' h' hg'
+      have hl' := hl id' (List.mem_cons_of_mem _ hid') h' hg'
+      refine ⟨by rw [hc.iss]; exact hl'.1, ?_⟩
+      rw [hc.cls]
+      intro hm
+      rcases List.mem_append.1 hm with hm | hm
+      · exact hl'.2 hm
+      · simp at hm
+        subst hm
+        have := hinj _ _ _ hg hg'
+        subst this
+        exact hn'.1 hid'
+    · exact finalize_closes loc hinj u a hi hn'.2
+        (fun id' hid' => hl id' (List.mem_cons_of_mem _ hid'))
+
+theorem finalize_inv {e : AMap Nat Nat} {u : List Nat} {loc : AMap Nat Nat} {a : Host}
+    (hi : HostInv a) (hl : LocInv a loc) (hn : u.Nodup) : HostInv (finalize e u loc a) := by
+  rw [finalize_split]
+  obtain ⟨hi', hs⟩ := finalize_exits loc e a hi hl
+  exact finalize_closes loc hl.inj u _ hi' hn (fun id _ h hg => hs.live (hl.live id h hg))
+
+
+/-! #### `createLocalSpan`, `onNewCallSite`, `restore` -/
+
+theorem create_spec {r : RState} {w w' : World} {d : SpanData} {h : Nat}
+    (hi : HostInv w.host) (hl : LocInv w.host r.loc)
+    (e : createLocalSpan r w d = .ok w' h) : HostInv w'.host ∧ Fresh w.host w'.host h := by
+  unfold createLocalSpan at e
+  split at e
+  · cases e
+  · rename_i idx _
+    simp only at e
+    split at e
+    · cases e
+    · rename_i initial _
+      split at e
+      · cases e
+      · rename_i host' hrc
+        cases e
+        have hp : ∀ x ∈ (match d.parent.bind fun x => r.loc.get x with
+            | some ph => HParent.explicit ph
+            | none => HParent.ctx).uses, Live w.host x := by
+          intro x hx
+          split at hx
+          · rename_i ph hb
+            simp [HParent.uses] at hx
+            subst hx
+            cases hd : d.parent with
+            | none => simp [hd] at hb
+            | some g =>
+              simp [hd] at hb
+              exact hl.live g _ hb
+          · simp [HParent.uses] at hx
+        obtain ⟨hi₁, hf₁⟩ := newSpan_spec hi idx _ initial hp
+        obtain ⟨hi₂, hs₂⟩ := recordChunks_quiet _ _ _ _ hi₁ (hf₁.live_new hi) hrc
+        exact ⟨hi₂, hf₁.same hs₂⟩
+
+theorem mapSpanId_some {r : RState} {id h : Nat} (e : mapSpanId r id = .ok (some h)) :
+    r.loc.get id = some h := by
+  unfold mapSpanId at e
+  split at e
+  · cases e; assumption
+  · split at e <;> cases e
+
+theorem mapSpanId_none {r : RState} {id : Nat} (e : mapSpanId r id = .ok none) :
+    r.loc.get id = none ∧ r.spans.contains id = true := by
+  unfold mapSpanId at e
+  split at e
+  · cases e
+  · split at e
+    · exact ⟨by assumption, by assumption⟩
+    · cases e
+
+theorem onNewCallSite_r (σ : Sigma) (id : Nat) (d : CallSite) :
+    (onNewCallSite σ id d).r.loc = σ.r.loc ∧ (onNewCallSite σ id d).r.spans = σ.r.spans ∧
+    (onNewCallSite σ id d).r.uncommitted = σ.r.uncommitted ∧
+    (onNewCallSite σ id d).r.entered = σ.r.entered := by
+  simp [onNewCallSite]
+
+theorem onNewCallSite_host (σ : Sigma) (id : Nat) (d : CallSite) (hi : HostInv σ.w.host) :
+    HostInv (onNewCallSite σ id d).w.host ∧ Same σ.w.host (onNewCallSite σ id d).w.host := by
+  simp only [onNewCallSite]
+  split
+  · exact emit_quiet hi _ rfl rfl (by intro x hx; simp [HostCall.uses] at hx)
+  · exact ⟨hi, Same.refl _⟩
+
+theorem restore_fold : ∀ (pm : PersistedMeta) (σ : Sigma), HostInv σ.w.host →
+    (pm.foldl (fun σ kv => onNewCallSite σ kv.1 kv.2) σ).r.loc = σ.r.loc ∧
+    (pm.foldl (fun σ kv => onNewCallSite σ kv.1 kv.2) σ).r.spans = σ.r.spans ∧
+    (pm.foldl (fun σ kv => onNewCallSite σ kv.1 kv.2) σ).r.uncommitted = σ.r.uncommitted ∧
+    HostInv (pm.foldl (fun σ kv => onNewCallSite σ kv.1 kv.2) σ).w.host ∧
+    Same σ.w.host (pm.foldl (fun σ kv => onNewCallSite σ kv.1 kv.2) σ).w.host
+  | [], σ, hi => ⟨rfl, rfl, rfl, hi, Same.refl _⟩
+  | kv :: pm, σ, hi => by
+    rw [List.foldl_cons]
+    obtain ⟨h1, h2, h3, _⟩ := onNewCallSite_r σ kv.1 kv.2
+    obtain ⟨hi', hs⟩ := onNewCallSite_host σ kv.1 kv.2 hi
+    obtain ⟨k1, k2, k3, k4, k5⟩ := restore_fold pm (onNewCallSite σ kv.1 kv.2) hi'
+    exact ⟨k1.trans h1, k2.trans h2, k3.trans h3, k4, hs.trans k5⟩
+
+theorem restore_spec (pm : PersistedMeta) (ps : PersistedSpans) (loc : AMap Nat Nat) (w : World)
+    (hi : HostInv w.host) :
+    (restore pm ps loc w).r.loc = loc ∧ (restore pm ps loc w).r.spans = ps ∧
+    (restore pm ps loc w).r.uncommitted = [] ∧ HostInv (restore pm ps loc w).w.host ∧
+    Same w.host (restore pm ps loc w).w.host :=
+  restore_fold pm { r := { spans := ps, loc }, w } hi
+
+/-! #### Invariants of the receiver state -/
+
+structure IdInv (σ : Sigma) : Prop where
+  host : HostInv σ.w.host
+  loc : LocInv σ.w.host σ.r.loc
+  unc : σ.r.uncommitted.Nodup
+
+/-- Additional invariant of histories that keep the local map, from a fresh host. -/
+structure CInv (σ : Sigma) : Prop where
+  sub : ∀ g h, σ.r.loc.get g = some h → σ.r.spans.contains g = true
+  acc : ∀ h ∈ issuedIn σ.w.host.log, h ∈ closedIn σ.w.host.log ∨ ∃ g, σ.r.loc.get g = some h
+
+theorem IdInv.of_quiet {σ σ' : Sigma} (hi : IdInv σ) (hb : HostInv σ'.w.host)
+    (hs : Same σ.w.host σ'.w.host) (hl : σ'.r.loc = σ.r.loc) (hu : σ'.r.uncommitted.Nodup) :
+    IdInv σ' :=
+  ⟨hb, by rw [hl]; exact hs.locInv hi.loc, hu⟩
+
+theorem CInv.of_quiet {σ σ' : Sigma} (hc : CInv σ)
+    (hs : Same σ.w.host σ'.w.host) (hl : σ'.r.loc = σ.r.loc)
+    (hsp : ∀ g h, σ.r.loc.get g = some h → σ.r.spans.contains g = true →
+      σ'.r.spans.contains g = true) : CInv σ' := by
+  constructor
+  · intro g h e
+    rw [hl] at e
+    exact hsp g h e (hc.sub g h e)
+  · rw [hs.iss, hs.cls, hl]
+    exact hc.acc
+
+theorem IdInv.of_fresh {σ σ' : Sigma} {b : Host} {g h : Nat} (hi : IdInv σ)
+    (hb : HostInv σ'.w.host) (hf : Fresh σ.w.host b h) (hs : Same b σ'.w.host)
+    (hl : σ'.r.loc = σ.r.loc.insert g h) (hu : σ'.r.uncommitted.Nodup) : IdInv σ' :=
+  ⟨hb, by rw [hl]; exact hi.loc.insert hi.host (hf.same hs) g, hu⟩
+
+theorem CInv.of_fresh {σ σ' : Sigma} {b : Host} {g h : Nat} (hc : CInv σ)
+    (hf : Fresh σ.w.host b h) (hs : Same b σ'.w.host)
+    (hl : σ'.r.loc = σ.r.loc.insert g h) (hn : σ.r.loc.get g = none)
+    (hsp : ∀ g', σ.r.spans.contains g' = true → σ'.r.spans.contains g' = true)
+    (hg : σ'.r.spans.contains g = true) : CInv σ' := by
+  have hf' := hf.same hs
+  constructor
+  · intro g' h' e
+    rw [hl, AMap.get_insert] at e
+    split at e
+    · subst_vars; exact hg
+    · exact hsp g' (hc.sub g' h' e)
+  · rw [hf'.iss, hf'.cls, hl]
+    intro x hx
+    rcases List.mem_append.1 hx with hx | hx
+    · rcases hc.acc x hx with h1 | ⟨g', hg'⟩
+      · exact Or.inl h1
+      · refine Or.inr ⟨g', ?_⟩
+        rw [AMap.get_insert]
+        split
+        · subst_vars; rw [hn] at hg'; cases hg'
+        · exact hg'
+    · simp at hx
+      subst hx
+      exact Or.inr ⟨g, by rw [AMap.get_insert]; simp⟩
+
+theorem IdInv.of_close {σ σ' : Sigma} {g h : Nat} (hi : IdInv σ) (hg : σ.r.loc.get g = some h)
+    (hh : σ'.w.host = σ.w.host.emit (.tryClose h)) (hl : σ'.r.loc = σ.r.loc.erase g)
+    (hu : σ'.r.uncommitted.Nodup) : IdInv σ' := by
+  obtain ⟨hi', hc⟩ := close_spec hi.host (hi.loc.live g h hg)
+  exact ⟨by rw [hh]; exact hi', by rw [hh, hl]; exact hi.loc.erase hc hg, hu⟩
+
+theorem CInv.of_close {σ σ' : Sigma} {g h : Nat} (hi : IdInv σ) (hc : CInv σ)
+    (hg : σ.r.loc.get g = some h)
+    (hh : σ'.w.host = σ.w.host.emit (.tryClose h)) (hl : σ'.r.loc = σ.r.loc.erase g)
+    (hsp : ∀ g', g' ≠ g → σ.r.spans.contains g' = true → σ'.r.spans.contains g' = true) :
+    CInv σ' := by
+  obtain ⟨_, hcl⟩ := close_spec hi.host (hi.loc.live g h hg)
+  constructor
+  · intro g' h' e
+    rw [hl, AMap.get_erase] at e
+    split at e
+    · cases e
+    · rename_i hne
+      exact hsp g' (fun e' => hne e'.symm) (hc.sub g' h' e)
+  · rw [hh, hcl.iss, hcl.cls, hl]
+    intro x hx
+    rcases hc.acc x hx with h1 | ⟨g', hg'⟩
+    · exact Or.inl (List.mem_append_left _ h1)
+    · by_cases e : g = g'
+      · subst e
+        rw [hg] at hg'
+        cases hg'
+        exact Or.inl (by simp)
+      · exact Or.inr ⟨g', by rw [AMap.get_erase]; simp [e, hg']⟩
+
+theorem contains_insert {α : Type} (m : AMap Nat α) (k k' : Nat) (v : α) :
+    (m.insert k v).contains k' = (decide (k = k') || m.contains k') := by
+  simp only [AMap.contains, AMap.get_insert]
+  split <;> simp [*]
+
+theorem contains_erase {α : Type} (m : AMap Nat α) (k k' : Nat) :
+    (m.erase k).contains k' = (!decide (k = k') && m.contains k') := by
+  simp only [AMap.contains, AMap.get_erase]
+  split <;> simp [*]
+
+/-! #### `tryReceive` preserves the invariants -/
+
+theorem inv_same {σ : Sigma} (hi : IdInv σ) : IdInv σ ∧ (CInv σ → CInv σ) := ⟨hi, fun h => h⟩
+
+theorem inv_quiet {σ σ' : Sigma} (hi : IdInv σ) (hb : HostInv σ'.w.host)
+    (hs : Same σ.w.host σ'.w.host) (hl : σ'.r.loc = σ.r.loc) (hu : σ'.r.uncommitted.Nodup)
+    (hsp : ∀ g h, σ.r.loc.get g = some h → σ.r.spans.contains g = true →
+      σ'.r.spans.contains g = true) : IdInv σ' ∧ (CInv σ → CInv σ') :=
+  ⟨hi.of_quiet hb hs hl hu, fun hc => hc.of_quiet hs hl hsp⟩
+
+theorem inv_emit {σ σ' : Sigma} (hi : IdInv σ) (c : HostCall) (h1 : c.issues = [])
+    (h2 : c.closes = []) (hu : ∀ h ∈ c.uses, ∃ g, σ.r.loc.get g = some h)
+    (hh : σ'.w.host = σ.w.host.emit c) (hl : σ'.r.loc = σ.r.loc)
+    (hun : σ'.r.uncommitted.Nodup)
+    (hsp : ∀ g h, σ.r.loc.get g = some h → σ.r.spans.contains g = true →
+      σ'.r.spans.contains g = true) : IdInv σ' ∧ (CInv σ → CInv σ') := by
+  obtain ⟨hb, hs⟩ := emit_quiet hi.host c h1 h2
+    (fun h hh => by obtain ⟨g, hg⟩ := hu h hh; exact hi.loc.live g h hg)
+  rw [← hh] at hb hs
+  exact inv_quiet hi hb hs hl hun hsp
+
+theorem inv_newCallSite (σ : Sigma) (hi : IdInv σ) (id : Nat) (d : CallSite) :
+    IdInv (tryReceive σ (.newCallSite id d)).state ∧
+      (CInv σ → CInv (tryReceive σ (.newCallSite id d)).state) := by
+  obtain ⟨h1, h2, h3, _⟩ := onNewCallSite_r σ id d
+  obtain ⟨hb, hs⟩ := onNewCallSite_host σ id d hi.host
+  refine inv_quiet hi hb hs h1 (by show (onNewCallSite σ id d).r.uncommitted.Nodup; rw [h3]; exact hi.unc) ?_
+  intro g h _ hg
+  show (onNewCallSite σ id d).r.spans.contains g = true
+  rw [h2]
+  exact hg
+
+theorem inv_followsFrom (σ : Sigma) (hi : IdInv σ) (id f : Nat) :
+    IdInv (tryReceive σ (.followsFrom id f)).state ∧
+      (CInv σ → CInv (tryReceive σ (.followsFrom id f)).state) := by
+  simp only [tryReceive]
+  split
+  · exact inv_same hi
+  · split
+    · exact inv_same hi
+    · split
+      · rename_i a b h1 h2 _ _
+        refine inv_emit hi (.follows h1 h2) rfl rfl ?_ rfl rfl hi.unc (fun _ _ _ h => h)
+        intro x hx
+        simp [HostCall.uses] at hx
+        rcases hx with rfl | rfl
+        · exact ⟨_, mapSpanId_some (by assumption)⟩
+        · exact ⟨_, mapSpanId_some (by assumption)⟩
+      · exact inv_same hi
+
+theorem inv_exited (σ : Sigma) (hi : IdInv σ) (id : Nat) :
+    IdInv (tryReceive σ (.exited id)).state ∧
+      (CInv σ → CInv (tryReceive σ (.exited id)).state) := by
+  simp only [tryReceive]
+  split
+  · exact inv_same hi
+  · rename_i l hm
+    cases l with
+    | none => exact inv_quiet hi hi.host (Same.refl _) rfl hi.unc (fun _ _ _ h => h)
+    | some h =>
+      refine inv_emit hi (.exit h) rfl rfl ?_ rfl rfl hi.unc (fun _ _ _ h => h)
+      intro x hx
+      simp [HostCall.uses] at hx
+      subst hx
+      exact ⟨_, mapSpanId_some hm⟩
+
+theorem inv_cloned (σ : Sigma) (hi : IdInv σ) (id : Nat) :
+    IdInv (tryReceive σ (.cloned id)).state ∧
+      (CInv σ → CInv (tryReceive σ (.cloned id)).state) := by
+  simp only [tryReceive]
+  split
+  · exact inv_same hi
+  · refine inv_quiet hi hi.host (Same.refl _) rfl hi.unc ?_
+    intro g h _ hg
+    simp [Res.state, contains_insert, hg]
+
+theorem inv_newEvent (σ : Sigma) (hi : IdInv σ) (mt : Nat) (parent : Option Nat) (values : TVals) :
+    IdInv (tryReceive σ (.newEvent mt parent values)).state ∧
+      (CInv σ → CInv (tryReceive σ (.newEvent mt parent values)).state) := by
+  simp only [tryReceive]
+  split
+  · exact inv_same hi
+  · split
+    · exact inv_same hi
+    · split
+      · exact inv_same hi
+      · split
+        · exact inv_same hi
+        · rename_i ph hm
+          refine inv_emit hi _ rfl rfl ?_ rfl rfl hi.unc (fun _ _ _ h => h)
+          intro x hx
+          cases ph with
+          | none => simp [HostCall.uses, HParent.uses] at hx
+          | some h =>
+            simp [HostCall.uses, HParent.uses] at hx
+            subst hx
+            cases parent with
+            | none => simp at hm
+            | some p => exact ⟨p, mapSpanId_some hm⟩
+
+theorem inv_valuesRecorded (σ : Sigma) (hi : IdInv σ) (id : Nat) (values : TVals) :
+    IdInv (tryReceive σ (.valuesRecorded id values)).state ∧
+      (CInv σ → CInv (tryReceive σ (.valuesRecorded id values)).state) := by
+  simp only [tryReceive]
+  split
+  · exact inv_same hi
+  · split
+    · exact inv_same hi
+    · rename_i l hm
+      cases l with
+      | none =>
+        simp only
+        split
+        · exact inv_same hi
+        · refine inv_quiet hi hi.host (Same.refl _) rfl hi.unc ?_
+          intro g h _ hg
+          simp [Res.state, contains_insert, hg]
+      | some h =>
+        simp only
+        cases hs : σ.r.spans.get id with
+        | none => exact inv_same hi
+        | some d =>
+          simp only
+          cases hmt : σ.r.mt.get d.mt with
+          | none => exact inv_same hi
+          | some idx =>
+            simp only
+            cases hcv : createValues (generateFields (siteOf σ.w idx) values) with
+            | none => exact inv_same hi
+            | some v =>
+              simp only [hs]
+              refine inv_emit hi (.record h v) rfl rfl ?_ rfl rfl hi.unc ?_
+              · intro x hx
+                simp [HostCall.uses] at hx
+                subst hx
+                exact ⟨_, mapSpanId_some hm⟩
+              · intro g h _ hg
+                simp [Res.state, contains_insert, hg]
+
+theorem inv_dropped (σ : Sigma) (hi : IdInv σ) (id : Nat) :
+    IdInv (tryReceive σ (.dropped id)).state ∧
+      (CInv σ → CInv (tryReceive σ (.dropped id)).state) := by
+  simp only [tryReceive]
+  split
+  · exact inv_same hi
+  · rename_i d hs
+    split
+    · exact inv_same hi
+    · split
+      · refine inv_quiet hi hi.host (Same.refl _) rfl hi.unc ?_
+        intro g h _ hg
+        simp [Res.state, contains_insert, hg]
+      · split
+        · rename_i hn
+          refine inv_quiet hi hi.host (Same.refl _) rfl (ASet.nodup_erase _ _ hi.unc) ?_
+          intro g h hgl hg
+          have hne : ¬ id = g := by
+            intro e
+            subst e
+            rw [hn] at hgl
+            cases hgl
+          simp [Res.state, contains_erase, hg, hne]
+        · rename_i h hg
+          refine ⟨hi.of_close hg rfl rfl (ASet.nodup_erase _ _ hi.unc),
+            fun hc => hc.of_close hi hg rfl rfl ?_⟩
+          intro g' hne hg'
+          have hne' : ¬ id = g' := fun e => hne e.symm
+          simp [Res.state, contains_erase, hg', hne']
+
+theorem inv_fresh {σ σ' : Sigma} {b : Host} {g h : Nat} (hi : IdInv σ)
+    (hb : HostInv σ'.w.host) (hf : Fresh σ.w.host b h) (hs : Same b σ'.w.host)
+    (hl : σ'.r.loc = σ.r.loc.insert g h) (hu : σ'.r.uncommitted.Nodup)
+    (hn : σ.r.loc.get g = none)
+    (hsp : ∀ g', σ.r.spans.contains g' = true → σ'.r.spans.contains g' = true)
+    (hg : σ'.r.spans.contains g = true) : IdInv σ' ∧ (CInv σ → CInv σ') :=
+  ⟨hi.of_fresh hb hf hs hl hu, fun hc => hc.of_fresh hf hs hl hn hsp hg⟩
+
+theorem inv_newSpan (σ : Sigma) (hi : IdInv σ) (id : Nat) (parent : Option Nat) (mt : Nat)
+    (values : TVals) :
+    IdInv (tryReceive σ (.newSpan id parent mt values)).state ∧
+      (CInv σ → CInv (tryReceive σ (.newSpan id parent mt values)).state) := by
+  simp only [tryReceive]
+  split
+  · exact inv_same hi
+  · split
+    · refine inv_quiet hi hi.host (Same.refl _) rfl (ASet.nodup_insert _ _ hi.unc) ?_
+      intro g h _ hg
+      simp [Res.state, contains_insert, hg]
+    · rename_i hnc
+      have hn : σ.r.loc.get id = none := by
+        cases hg : σ.r.loc.get id with
+        | none => rfl
+        | some h => simp [AMap.contains, hg] at hnc
+      split
+      · exact inv_same hi
+      · split
+        · exact inv_same hi
+        · exact inv_same hi
+        · rename_i w h hc
+          obtain ⟨hb, hf⟩ := create_spec hi.host hi.loc hc
+          refine inv_fresh hi hb hf (Same.refl _) rfl (ASet.nodup_insert _ _ hi.unc) hn ?_ ?_
+          · intro g' hg'
+            simp [Res.state, contains_insert, hg']
+          · simp [Res.state, contains_insert]
+
+theorem inv_entered (σ : Sigma) (hi : IdInv σ) (id : Nat) :
+    IdInv (tryReceive σ (.entered id)).state ∧
+      (CInv σ → CInv (tryReceive σ (.entered id)).state) := by
+  simp only [tryReceive]
+  split
+  · exact inv_same hi
+  · rename_i h hm
+    refine inv_emit hi (.enter h) rfl rfl ?_ rfl rfl hi.unc (fun _ _ _ h => h)
+    intro x hx
+    simp [HostCall.uses] at hx
+    subst hx
+    exact ⟨_, mapSpanId_some hm⟩
+  · rename_i hm
+    obtain ⟨hn, hcont⟩ := mapSpanId_none hm
+    split
+    · exact inv_same hi
+    · split
+      · exact inv_same hi
+      · exact inv_same hi
+      · rename_i w h hc
+        obtain ⟨hb, hf⟩ := create_spec hi.host hi.loc hc
+        obtain ⟨hb', hs⟩ := emit_quiet hb (.enter h) rfl rfl
+          (by intro x hx; simp [HostCall.uses] at hx; subst hx; exact hf.live_new hi.host)
+        exact inv_fresh hi hb' hf hs rfl hi.unc hn (fun _ h => h) hcont
+
+theorem tryReceive_inv (σ : Sigma) (e : Event) (hi : IdInv σ) :
+    IdInv (tryReceive σ e).state ∧ (CInv σ → CInv (tryReceive σ e).state) := by
+  cases e with
+  | newCallSite id d => exact inv_newCallSite σ hi id d
+  | newSpan id parent mt values => exact inv_newSpan σ hi id parent mt values
+  | followsFrom id f => exact inv_followsFrom σ hi id f
+  | entered id => exact inv_entered σ hi id
+  | exited id => exact inv_exited σ hi id
+  | cloned id => exact inv_cloned σ hi id
+  | dropped id => exact inv_dropped σ hi id
+  | valuesRecorded id values => exact inv_valuesRecorded σ hi id values
+  | newEvent mt parent values => exact inv_newEvent σ hi mt parent values
+
+/-! #### Histories -/
+
+theorem HostInv.empty : HostInv {} :=
+  ⟨rfl, by intro h hh; simp [issuedIn] at hh⟩
+
+theorem step_persist_keep (s : Sys) :
+    (s.step (.persist .keep)).σ = restore (persistMeta s.σ) s.σ.r.spans s.σ.r.loc
+      { s.σ.w with host := finalize s.σ.r.entered [] s.σ.r.loc s.σ.w.host } := rfl
+
+theorem step_persist_lose (s : Sys) :
+    (s.step (.persist .lose)).σ = restore (persistMeta s.σ) s.σ.r.spans []
+      { s.σ.w with host := finalize s.σ.r.entered [] s.σ.r.loc s.σ.w.host } := rfl
+
+theorem step_persist_loseNew (s : Sys) :
+    (s.step (.persist .loseNew)).σ = restore (persistMeta s.σ) s.σ.r.spans []
+      { s.σ.w with host := {} } := rfl
+
+theorem step_discard (s : Sys) :
+    (s.step .discard).σ = restore s.lastPm s.lastPs [] (dropR s.σ) := rfl
+
+theorem idInv_restore_nil (pm : PersistedMeta) (ps : PersistedSpans) (w : World)
+    (hi : HostInv w.host) : IdInv (restore pm ps [] w) := by
+  obtain ⟨h1, _, h3, h4, _⟩ := restore_spec pm ps [] w hi
+  exact ⟨h4, by rw [h1]; exact LocInv.nil _, by rw [h3]; exact List.nodup_nil⟩
+
+theorem step_inv (s : Sys) (op : HOp) (hi : IdInv s.σ) : IdInv (s.step op).σ := by
+  cases op with
+  | ev e => exact (tryReceive_inv s.σ e hi).1
+  | persist mode =>
+    cases mode with
+    | keep =>
+      rw [step_persist_keep]
+      obtain ⟨hb, hs⟩ := finalize_exits s.σ.r.loc s.σ.r.entered s.σ.w.host hi.host hi.loc
+      obtain ⟨h1, _, h3, h4, h5⟩ := restore_spec (persistMeta s.σ) s.σ.r.spans s.σ.r.loc
+        { s.σ.w with host := finalize s.σ.r.entered [] s.σ.r.loc s.σ.w.host } hb
+      exact ⟨h4, by rw [h1]; exact (hs.trans h5).locInv hi.loc, by rw [h3]; exact List.nodup_nil⟩
+    | lose =>
+      rw [step_persist_lose]
+      obtain ⟨hb, _⟩ := finalize_exits s.σ.r.loc s.σ.r.entered s.σ.w.host hi.host hi.loc
+      exact idInv_restore_nil _ _ _ hb
+    | loseNew =>
+      rw [step_persist_loseNew]
+      exact idInv_restore_nil _ _ _ HostInv.empty
+  | discard =>
+    rw [step_discard]
+    exact idInv_restore_nil _ _ _ (finalize_inv hi.host hi.loc hi.unc)
+
+theorem run_inv : ∀ (ops : List HOp) (s : Sys), IdInv s.σ → IdInv (runHistory s ops).σ
+  | [], _, hi => hi
+  | op :: ops, s, hi => run_inv ops (s.step op) (step_inv s op hi)
+
+theorem init_inv (w₀ : World) (hw : HostOK w₀.host) : IdInv (Sys.init w₀).σ :=
+  ⟨⟨hw.1, hw.2⟩, LocInv.nil _, List.nodup_nil⟩
+
+theorem step_keep_cinv (s : Sys) (hi : IdInv s.σ) (hc : CInv s.σ) :
+    CInv (s.step (.persist .keep)).σ := by
+  rw [step_persist_keep]
+  obtain ⟨hb, hs⟩ := finalize_exits s.σ.r.loc s.σ.r.entered s.σ.w.host hi.host hi.loc
+  obtain ⟨h1, h2, _, _, h5⟩ := restore_spec (persistMeta s.σ) s.σ.r.spans s.σ.r.loc
+    { s.σ.w with host := finalize s.σ.r.entered [] s.σ.r.loc s.σ.w.host } hb
+  refine hc.of_quiet (hs.trans h5) h1 ?_
+  intro g h _ hg
+  rw [h2]
+  exact hg
+
+end Helpers
+
 /-- Every id the receiver chain passes to the host was issued by that host and is not yet closed;
     no host span is closed twice. For every history whatsoever. -/
 theorem C08_id_discipline (w₀ : World) (hw : HostOK w₀.host) (ops : List HOp) :
-    WellUsed (runHistory (Sys.init w₀) ops).σ.w.host.log := by
-  sorry
+    WellUsed (runHistory (Sys.init w₀) ops).σ.w.host.log :=
+  (run_inv ops (Sys.init w₀) (init_inv w₀ hw)).host.wu
 
 theorem C08_never_closes_twice (w₀ : World) (hw : HostOK w₀.host) (ops : List HOp) :
-    (closedIn (runHistory (Sys.init w₀) ops).σ.w.host.log).Nodup := by
-  sorry
+    (closedIn (runHistory (Sys.init w₀) ops).σ.w.host.log).Nodup :=
+  closed_nodup _ (C08_id_discipline w₀ hw ops)
 
 /-- When the last handle of a guest span is dropped and a host span exists for it, exactly that
     host span is closed at that moment and the local map entry is removed. -/
@@ -69,13 +866,25 @@ theorem C08_close_on_last_drop (σ : Sigma) (id h : Nat) (d : SpanData)
     ∃ σ', tryReceive σ (.dropped id) = .ok σ' ∧
       σ'.w.host.log = .tryClose h :: σ.w.host.log ∧
       σ'.r.loc.get id = none ∧ σ'.r.spans.get id = none := by
-  sorry
+  simp only [tryReceive, hs, hrc, hl]
+  simp [AMap.get_erase, emit_log]
 
 /-- A drop that is not the last one, or for a span without host span, makes no host call. -/
 theorem C08_other_drops_silent (σ σ' : Sigma) (id : Nat) (d : SpanData)
     (hs : σ.r.spans.get id = some d) (h : d.refCount ≠ 1 ∨ σ.r.loc.get id = none)
     (hok : tryReceive σ (.dropped id) = .ok σ') : σ'.w.host.log = σ.w.host.log := by
-  sorry
+  simp only [tryReceive, hs] at hok
+  split at hok
+  · cases hok
+  · split at hok
+    · cases hok; rfl
+    · rename_i h0 h1
+      have h1' : d.refCount = 1 := by omega
+      rcases h with h | h
+      · exact absurd h1' h
+      · simp only [h] at hok
+        cases hok
+        rfl
 
 def onlyKeep : List HOp → Bool
   | [] => true
@@ -83,12 +892,46 @@ def onlyKeep : List HOp → Bool
   | .persist .keep :: ops => onlyKeep ops
   | _ => false
 
+theorem run_cinv : ∀ (ops : List HOp) (s : Sys), onlyKeep ops = true → IdInv s.σ → CInv s.σ →
+    IdInv (runHistory s ops).σ ∧ CInv (runHistory s ops).σ
+  | [], _, _, hi, hc => ⟨hi, hc⟩
+  | .ev e :: ops, s, hk, hi, hc =>
+    run_cinv ops (s.step (.ev e)) (by simpa [onlyKeep] using hk) (step_inv s _ hi)
+      ((tryReceive_inv s.σ e hi).2 hc)
+  | .persist .keep :: ops, s, hk, hi, hc =>
+    run_cinv ops (s.step (.persist .keep)) (by simpa [onlyKeep] using hk) (step_inv s _ hi)
+      (step_keep_cinv s hi hc)
+  | .persist .lose :: _, _, hk, _, _ => by simp [onlyKeep] at hk
+  | .persist .loseNew :: _, _, hk, _, _ => by simp [onlyKeep] at hk
+  | .discard :: _, _, hk, _, _ => by simp [onlyKeep] at hk
+
 /-- With the local map preserved, a fully completed execution (no guest span alive) leaves an
     empty local map and no host span open. -/
 theorem C08_complete_run (arena : List CallSite) (ops : List HOp) (hk : onlyKeep ops = true) :
     let s := runHistory (Sys.init { arena, host := {} }) ops
     s.σ.r.spans = [] → s.σ.r.loc = [] ∧ ∀ h ∈ issuedIn s.σ.w.host.log, h ∈ closedIn s.σ.w.host.log := by
-  sorry
+  intro s hsp
+  have hi0 : IdInv (Sys.init { arena, host := {} }).σ :=
+    init_inv _ ⟨HostInv.empty.wu, HostInv.empty.lt⟩
+  have hc0 : CInv (Sys.init { arena, host := {} }).σ :=
+    ⟨fun g h e => by simp [Sys.init, AMap.get] at e,
+     fun h hh => by simp [Sys.init, issuedIn] at hh⟩
+  obtain ⟨_, hc⟩ := run_cinv ops _ hk hi0 hc0
+  have hloc : s.σ.r.loc = [] := by
+    apply AMap.eq_nil_of_get_none
+    intro g
+    cases hg : s.σ.r.loc.get g with
+    | none => rfl
+    | some h =>
+      have := hc.sub g h hg
+      rw [hsp] at this
+      simp [AMap.contains, AMap.get] at this
+  refine ⟨hloc, ?_⟩
+  intro h hh
+  rcases hc.acc h hh with h1 | ⟨g, hg⟩
+  · exact h1
+  · rw [hloc] at hg
+    simp [AMap.get] at hg
 
 /-- Non-vacuity: a complete run across a kept cut; and a run where the map is lost, which leaks
     a host span but still never misuses an id. -/
